@@ -35,7 +35,6 @@
 #include <nitro/lang/optional.hpp>
 #include <nitro/lang/string.hpp>
 
-#include <regex>
 #include <set>
 #include <string>
 
@@ -61,7 +60,11 @@ namespace options
 
             if (!is_value() && !is_double_dash())
             {
-                if (!std::regex_match(arg, std::regex("-{1,2}[^-=]+[^=]*=?.*")))
+                // one or two dashes followed by a non-empty name, i.e. "-{1,2}[^-=]+[^=]*(=.*)?"
+                // where the value may contain any character, including line breaks
+                auto dashes = arg_.find_first_not_of('-');
+
+                if (dashes == std::string::npos || dashes > 2 || arg_[dashes] == '=')
                 {
                     raise<parsing_error>("The user input couldn't be parsed. (", arg, ")");
                 }
